@@ -83,3 +83,23 @@ _add(
          "refractory encoder (on indices and through inferno.isi) and bit-identical reproduction from a cloned generator state.",
     technique="runtime monitoring: output invariants on the real encoders over a generator-seed sweep",
 )
+
+_add(
+    "C16",
+    rule="(a) random 8-40 operation sequences over {register, deregister, train, eval, module call, manual call with "
+         "force / ignore_mode, enable-flag switches, delete + gc.collect, re-create} on a generic Hook (pre, post or "
+         "both) and a StateHook subclass (pre or post) attached to an nn.Module / inferno.Module probe that logs the "
+         "order of events; every operation is one evaluation judged by a firing state machine; (b) Clamping and "
+         "Normalization hooks on a plain tensor attribute, a buffer, connection.weight and updater 'parent.weight' with "
+         "random tensors, bounds, orders (1, 2, 0.5, 3, inf), scales (negative too) and dims; post-conditions are "
+         "evaluated inside every firing by a class-level wrapper. Non-trivial: everything except bare mode switches; "
+         "distinct = (hook kind, operation, registered, alive, armed, position, probe type) / (hook, target, parameters).",
+    required=["module_calls_checked", "manual_calls_checked", "deregistrations_checked", "collections_checked",
+              "postcondition_evaluations.clamp", "postcondition_evaluations.norm"],
+    floor={"quick": 200, "thorough": 400},
+    text="Held on every operation sequence explored: the number and position of hook firings per module call and per "
+         "manual call is compared with an explicit registered / enabled / mode / alive state machine, handle counts are "
+         "compared with the baseline after deregistration and after garbage collection, and the clamp / norm "
+         "post-conditions are asserted inside each firing of the real Clamping / Normalization hooks.",
+    technique="runtime monitoring: firing state-machine monitor over random lifecycle sequences + post-condition assertions hooked into each firing",
+)
